@@ -30,7 +30,8 @@ func (c *CRLRevocationChecker) IsRevoked(clientCertificate *x509.Certificate, ve
 	var locations *core.CRLLocations
 
 	if len(clientCertificate.CRLDistributionPoints) > 0 {
-		chains := core.NewCertificateChains(verifiedChains, c.crlConfig.TrustedSignatureCerts)
+		//only the CA certificates above the client certificate are entitled to sign its CRL, never the client certificate itself
+		chains := core.NewCertificateChains(withoutEndEntities(verifiedChains), c.crlConfig.TrustedSignatureCerts)
 		locations = &core.CRLLocations{CRLDistributionPoints: clientCertificate.CRLDistributionPoints}
 		added, err := c.crlRepository.AddCRL(locations, chains)
 		if err != nil {
@@ -45,6 +46,16 @@ func (c *CRLRevocationChecker) IsRevoked(clientCertificate *x509.Certificate, ve
 
 	revoked, err := c.crlRepository.IsRevoked(clientCertificate, locations)
 	return revoked, err
+}
+
+func withoutEndEntities(verifiedChains [][]*x509.Certificate) [][]*x509.Certificate {
+	issuerChains := make([][]*x509.Certificate, 0, len(verifiedChains))
+	for _, verifiedChain := range verifiedChains {
+		if len(verifiedChain) > 1 {
+			issuerChains = append(issuerChains, verifiedChain[1:])
+		}
+	}
+	return issuerChains
 }
 
 func (c *CRLRevocationChecker) Provision(crlConfig *config.CRLConfig, logger *zap.Logger) error {
